@@ -449,22 +449,26 @@ fn case(g: &mut Gen) -> Outcome {
     };
     // every parenthesis level is a nested value for the parser, whose documented limit is
     // PARSER_MAX_DEPTH (the guard against unbounded recursion): deeper texts cannot compile
-    if paren_depth(&text) > radix_transactions::manifest::parser::PARSER_MAX_DEPTH {
+    let deep = paren_depth(&text);
+    if deep > radix_transactions::manifest::parser::PARSER_MAX_DEPTH {
         g.label("nested deeper than PARSER_MAX_DEPTH");
         ensure!(
             first.is_err(),
             "a text nested deeper than PARSER_MAX_DEPTH compiles (parser recursion is unbounded)",
             "parenthesis depth {} > {}\nkind {}\ntext {:?}",
-            paren_depth(&text),
+            deep,
             radix_transactions::manifest::parser::PARSER_MAX_DEPTH,
             kind.name(),
             clip(&text, 3000)
         );
     }
     // same answer every time (and from another thread now and then)
-    let second = if g.chance(1, 8) {
+    let other_thread = g.chance(1, 8);
+    // (deeply nested texts stay on the driver's large-stack worker: what is compared is the
+    // answer, not the stack need of a text the depth limit is there to reject)
+    let second = if other_thread && deep <= radix_transactions::manifest::parser::PARSER_MAX_DEPTH {
         let (t, n, b) = (text.clone(), network.clone(), blobs.clone());
-        std::thread::scope(|s| s.spawn(move || compile_once(&t, kind, &n, &b)).join()).unwrap_or_else(|_| Err("worker thread died".into()))
+        std::thread::scope(|s| s.spawn(move || compile_once(&t, kind, &n, &b)).join()).unwrap_or_else(|_| Err("second thread died".into()))
     } else {
         compile_once(&text, kind, &network, &blobs)
     };
